@@ -175,6 +175,39 @@ def check(src, rep):
             bad += 1
         elif res[0] != "value" or not isinstance(res[1], dict) or set(res[1]) != set(want) or any(not (res[1][k_] == want[k_] or (k_ == name_map[known] and any(res[1][k_] == t_ for t_ in kilo_ok))) for k_ in want):
             vio("R3", "stores-per-dataset", "a block of several data sets is not decoded data set by data set", line0, f"got {res[1]!r}"[:260])
+    # the name is looked up by the parsed code, however the address is written: with group F, with leading zeros
+    if not bad:
+        for addr in (f"1-0:{known}*255", "1-0:" + ".".join(x.zfill(2) for x in known.split(".")), f"1-1:{known}*1"):
+            res = decode(dc, PAY, [dataset(addr, [(VAL, "kWh")])])
+            if res[0] in ("undecided", "branch"):
+                rep.undecide(f"R3 address {addr!r} is outside the interpreted subset: {res[1]!r}"[:300])
+                bad += 1
+                break
+            if res[0] == "raise" or not isinstance(res[1], dict) or list(res[1]) != [name_map[known]]:
+                vio("R3", "naming", "the key is not obis_name_map[C.D.E] of the *parsed* address: another legal spelling of the same code (group F present, leading zeros) is stored under another name",
+                    line0, f"address {addr!r}: {res[1] if res[0] == 'value' else res!r}"[:260])
+                break
+    # two blocks decoded one after the other by the same interpreter state: the second result is that of the second block alone, in a dictionary of its own
+    if not bad:
+        A2 = AbsEval(M, hooks={"Obis.from_string": obis_hook})
+        blocks = [[dataset(addr_of(known), [(VAL, "kWh")])], [dataset(addr_of("250.250.250"), [(VAL2, None)])]]
+        turn = {"k": 0}
+
+        def oracle2(args, kw):
+            k_ = turn["k"]
+            turn["k"] += 1
+            return list(blocks[min(k_, 1)])
+        A2.func_hooks[(MOD, pc.node.name)] = oracle2
+        r1 = A2.apply(dc, [PAY])
+        snap1 = dict(r1[1]) if r1[0] == "value" and isinstance(r1[1], dict) else None
+        r2 = A2.apply(dc, [PAY])
+        if r1[0] in ("undecided", "branch") or r2[0] in ("undecided", "branch"):
+            rep.undecide(f"R3 two consecutive decodes are outside the interpreted subset: {(r1 if r1[0] != 'value' else r2)[1]!r}"[:300])
+            bad += 1
+        elif r2[0] != "value" or not isinstance(r2[1], dict) or set(r2[1]) != {"250.250.250"} or r2[1] is r1[1] or (snap1 is not None and dict(r1[1]) != snap1):
+            vio("R3", "history-dependent", "the result of a decode depends on blocks decoded before it (state kept between calls, e.g. a mutable default argument or a module-level dictionary): "
+                "the second block's dictionary contains fields of the first, or the first result is modified afterwards", line0,
+                f"first block -> {snap1!r}; second block -> {r2[1] if r2[0] == 'value' else r2!r}"[:300])
     if not bad and seen_kinds >= {"float", "kilo", "clock", "verbatim"}:
         rep.ok("R1", f"{n_cases} abstract data sets", "unit dispatch on the case-folded unit only: {V,A,var,varh} -> float(v); {kW,kWh,kvar,kvarh} -> int(float(v)*1000); 1.0.0 -> clock; otherwise verbatim (transmitted number symbolic)")
         rep.ok("R2", "clock", "YYMMDDhhmmss slices [0:2]..[10:12] feed datetime(2000+YY, MM, DD, hh, mm, ss) in this order")
